@@ -239,7 +239,30 @@ func TestVerifC15(t *testing.T) {
 			f()
 		}
 	}()
+	// a license far larger than any shipped one (its archived search set is several MiB)
+	bigText := func() string {
+		r := rand.New(rand.NewSource(99))
+		var sb strings.Builder
+		for i := 0; i < 42000; i++ {
+			fmt.Fprintf(&sb, "bigw%d", r.Intn(6000))
+			if i%13 == 12 {
+				sb.WriteByte('\n')
+			} else {
+				sb.WriteByte(' ')
+			}
+		}
+		return sb.String()
+	}()
+	shortBase, headerBase := synth["Synthetic-Short.txt"], synth["Synthetic.header.txt"]
 	for round := 0; round < rounds; round++ {
+		// the same file names hold other texts in every round: an archive is a function of the files as they are now
+		synth["Synthetic-Short.txt"] = strings.Repeat(fmt.Sprintf("Clause %d of this edition applies to derived works as well.\n", round), round) + shortBase
+		synth["Synthetic.header.txt"] = headerBase + strings.Repeat(fmt.Sprintf(" as amended in edition %d", round), round)
+		if round == 0 {
+			synth["Synthetic-Big.txt"] = bigText
+		} else {
+			delete(synth, "Synthetic-Big.txt")
+		}
 		perm := rng.Perm(len(all))
 		if size > len(all) {
 			size = len(all)
@@ -293,7 +316,7 @@ func TestVerifC15(t *testing.T) {
 			f := all[rng.Intn(len(all))]
 			if k%2 == 0 {
 				f = files[rng.Intn(len(files))]
-				if !strings.HasSuffix(f, ".txt") {
+				if !strings.HasSuffix(f, ".txt") || f == "Synthetic-Big.txt" {
 					f = all[rng.Intn(len(all))]
 				}
 			}
@@ -331,6 +354,23 @@ func TestVerifC15(t *testing.T) {
 				rec.mm(fmt.Sprintf("direct%d", round), direct, al, q, h, fmt.Sprintf("%s|mm%v", memo, h), label)
 			}
 		}
+		// the synthetic texts of this round, slightly edited (inexact: only the search set finds them)
+		for _, k := range []string{"Synthetic-Short.txt", "Synthetic.header.txt"} {
+			ws := strings.Fields(synth[k])
+			ws[len(ws)/2] = "zzqx"
+			q := "Some preamble about the software.\n" + strings.Join(ws, " ") + "\nand a trailing remark"
+			memo := fmt.Sprintf("r%d|%s", round, lcHash(q))
+			for _, h := range []bool{false, true} {
+				rec.mm(fmt.Sprintf("loaded%d", round), loaded, al, q, h, fmt.Sprintf("%s|mm%v", memo, h), "synth:"+k)
+				rec.mm(fmt.Sprintf("direct%d", round), direct, al, q, h, fmt.Sprintf("%s|mm%v", memo, h), "synth:"+k)
+			}
+		}
+		if _, ok := synth["Synthetic-Big.txt"]; ok {
+			q := "Some preamble about the software.\n" + bigText + "\nand a trailing remark"
+			memo := fmt.Sprintf("r%d|%s", round, lcHash(q))
+			rec.mm(fmt.Sprintf("loaded%d", round), loaded, al, q, false, memo+"|mmfalse", "synth:big")
+			rec.mm(fmt.Sprintf("direct%d", round), direct, al, q, false, memo+"|mmfalse", "synth:big")
+		}
 		// after the queries every lazily built search set of the direct classifier exists: the archived sets must be the same size
 		setsOK := true
 		var setDiff []string
@@ -367,6 +407,19 @@ func TestVerifC16(t *testing.T) {
 				idx = append(idx, i)
 			}
 		}
+		// ... and so is every file whose text is not the registered value (text behind an END OF TERMS marker is
+		// trimmed on registration): these are identified by edit distance, not by equality
+		for i, f := range all {
+			if lcNorm(lcRead(f)) != licenseclassifier.VerifInner(l).VerifValue(strings.TrimSuffix(f, ".txt")) {
+				dup := false
+				for _, j := range idx {
+					dup = dup || j == i
+				}
+				if !dup {
+					idx = append(idx, i)
+				}
+			}
+		}
 	}
 	sort.Ints(idx)
 	variants := strings.Split(os.Getenv("VERIF_VARIANTS"), ",")
@@ -394,6 +447,22 @@ func TestVerifC16(t *testing.T) {
 		}
 		rec.mm("lic", l, al, strings.Join(ws, " "), true, "", f+"/mm-noisy")
 	}
+	// the threshold is an exported field and may be changed after New: nothing below the CURRENT threshold
+	thr0 := l.Threshold
+	for _, thr := range []float64{0.95, 0.99, 1.0, 0.6} {
+		l.Threshold = thr
+		for _, f := range []string{"MIT.txt", "BSD-3-Clause.txt", "Apache-2.0.txt", "GPL-2.0.txt"} {
+			ws := strings.Fields(lcRead(f))
+			for _, every := range []int{12, 40, 150} {
+				w2 := append([]string(nil), ws...)
+				for k := every / 2; k < len(w2); k += every {
+					w2[k] = "zzqx"
+				}
+				rec.mm("lic", l, al, strings.Join(w2, " "), true, "", fmt.Sprintf("%s/thr%v/every%d", f, thr, every))
+			}
+		}
+	}
+	l.Threshold = thr0
 	// confidences around the threshold: a run of foreign characters spliced into the middle of a license, one
 	// character longer each time, walks the confidence down through the threshold in steps of about 1/len
 	for _, f := range []string{"MIT.txt", "ISC.txt", "BSD-3-Clause.txt"} {
